@@ -110,12 +110,13 @@ type lenInv struct {
 }
 
 type linProver struct {
-	p       *Prog
-	hyp     []lin                  // induction hypotheses in force
-	paramNN map[*ssa.Parameter]int // 0 unknown, 1 non-negative at all call sites, 2 not
-	invs    []lenInv
-	facts   map[*ssa.BasicBlock][]lin // constraints L <= 0
-	summary map[*ssa.Function]int     // 0 unknown, 1 holds, 2 fails  (result#0 in [0, len(last []byte param)] when result#1 may be true)
+	inPhiBound bool // recursion guard of phiBoundFacts
+	p          *Prog
+	hyp        []lin                  // induction hypotheses in force
+	paramNN    map[*ssa.Parameter]int // 0 unknown, 1 non-negative at all call sites, 2 not
+	invs       []lenInv
+	facts      map[*ssa.BasicBlock][]lin // constraints L <= 0
+	summary    map[*ssa.Function]int     // 0 unknown, 1 holds, 2 fails  (result#0 in [0, len(last []byte param)] when result#1 may be true)
 }
 
 func newLinProver(p *Prog, invs []lenInv) *linProver {
@@ -319,9 +320,10 @@ func (lp *linProver) nonNeg(v ssa.Value, d int) bool {
 			}
 		}
 	case *ssa.Convert:
-		if isIntType(x.X.Type()) {
-			return lp.nonNeg(x.X, d+1)
-		}
+		// only conversions that canon() did not strip arrive here: narrowing or
+		// sign-changing ones. Narrowing to a signed type may yield a negative
+		// value; a conversion to an unsigned type was answered above.
+		return false
 	case *ssa.Extract:
 		return isIOCount(x)
 	case *ssa.Parameter:
@@ -628,6 +630,7 @@ func (lp *linProver) prove(g lin, b *ssa.BasicBlock) bool {
 	facts := append([]lin{}, lp.factsAt(b)...)
 	facts = append(facts, lp.hyp...)
 	facts = append(facts, lp.contractFacts(g, b)...)
+	facts = append(facts, lp.phiBoundFacts(g, facts)...)
 	// second-order contract facts (atoms introduced by first-level facts)
 	n0 := len(facts)
 	for i := 0; i < n0; i++ {
@@ -710,6 +713,7 @@ func (lp *linProver) proveNoPhi(g lin, b *ssa.BasicBlock) bool {
 	facts := append([]lin{}, lp.factsAt(b)...)
 	facts = append(facts, lp.hyp...)
 	facts = append(facts, lp.contractFacts(g, b)...)
+	facts = append(facts, lp.phiBoundFacts(g, facts)...)
 	for i := range facts {
 		r1 := g.add(facts[i], -1)
 		if lp.obviouslyNonPos(r1) {
@@ -896,4 +900,66 @@ func localAllocFieldStore(u *ssa.UnOp, fa *ssa.FieldAddr) ssa.Value {
 		return nil
 	}
 	return store.Val
+}
+
+// phiBoundFacts: the `min` idiom. For a merge phi m (not loop-carried) that
+// occurs in the facts at hand and a length atom L of the goal: if every
+// incoming value of m is <= L under the facts of its edge, then m <= L.
+func (lp *linProver) phiBoundFacts(g lin, facts []lin) []lin {
+	if lp.inPhiBound {
+		return nil
+	}
+	lp.inPhiBound = true
+	defer func() { lp.inPhiBound = false }()
+	var lens []lterm
+	for _, t := range g.ts {
+		if _, ok := t.v.(lenAtom); ok {
+			lens = append(lens, t)
+		}
+	}
+	if len(lens) == 0 {
+		return nil
+	}
+	seen := map[*ssa.Phi]bool{}
+	var out []lin
+	for _, f := range facts {
+		for _, t := range f.ts {
+			phi, ok := canon(t.v).(*ssa.Phi)
+			if !ok || seen[phi] || len(phi.Edges) == 0 || len(phi.Edges) > 4 || !isIntType(phi.Type()) {
+				continue
+			}
+			seen[phi] = true
+			loop := false
+			for _, e := range phi.Edges {
+				if dependsOn(e, phi, 0) {
+					loop = true
+				}
+			}
+			if loop {
+				continue
+			}
+			for _, L := range lens {
+				all := true
+				for i, e := range phi.Edges {
+					var ef []lin
+					for _, a := range edgeAtoms(phi.Block().Preds[i], phi.Block()) {
+						ef = append(ef, lp.atomConstraints(a)...)
+					}
+					nh := len(lp.hyp)
+					lp.hyp = append(lp.hyp, ef...)
+					sub := lp.linOf(e, 0).add(lin{ok: true, ts: []lterm{{L.v, 1}}}, -1)
+					ok := lp.proveNoPhi(sub, phi.Block().Preds[i])
+					lp.hyp = lp.hyp[:nh]
+					if !ok {
+						all = false
+						break
+					}
+				}
+				if all {
+					out = append(out, lin{ok: true, ts: []lterm{{phi, 1}}}.add(lin{ok: true, ts: []lterm{{L.v, 1}}}, -1))
+				}
+			}
+		}
+	}
+	return out
 }
